@@ -653,11 +653,11 @@ theorem toAgg_ofAgg (as : List Agg) : (as.map AVal.ofAgg).map AVal.toAgg = as :=
   cases a <;> rfl
 
 /-- What the caller sees of an `aggregate` call that returned the functional model's table. -/
-theorem render_aggregate {P : Program} (hP : P.aggEmptyHeader = true) (keyCols : List String)
+theorem render_aggregate {P : Program} (hP : P.aggEmptyHeader = true) (hC : P.cell = .get) (keyCols : List String)
     (reqs : List Req) (t : List (List PyVal × List Agg)) :
     render P keyCols (.aggregate reqs) (liftOut (.table t))
       = .ok (header keyCols reqs, t.map fun ka => resultRow keyCols reqs ka.1 ka.2) := by
-  simp only [liftOut, render]
+  simp only [liftOut, render, hC, applyCell]
   rw [find_isErr_ofAgg]
   simp only
   cases t with
@@ -701,6 +701,7 @@ def repaired : Program :=
     aggs := [("MIN", .minD .none), ("MAX", .maxD .none), ("COUNT", .len),
              ("AVG", .ifEmpty .none (.div (.decimal .sum) (.decimal .len))), ("SUM", .ifEmpty .none .sum)]
     labels := [stdLabel, stdLabel, stdLabel, stdLabel]
+    cell := .get
     aggEmptyHeader := true
     groupsEmptyHeader := true
     iterMaterialises := true
